@@ -85,6 +85,16 @@ def cookie_inputs(F):
         which = [fld for fld in ['ip.src', 'ip.dst', 'port.src', 'port.dst'] if is_field(a, fld)]
         chk(len(which) == 1, 'generate:write:%s:%s' % (n, which[0] if which else short(a)[:30]), '%s(%s)' % (n, short(a)[:80]), g.loc(b))
 
+    # the two address families must not be able to produce the same hashed message: their address writes differ in
+    # width (u32 vs u128) - SipHash covers the message length - so a V4 flow and a V6 flow never share a cookie by
+    # construction
+    fam = {}
+    for b, n, a in writes:
+        for v_ in ('V4', 'V6'):
+            if is_field(a, 'ip.src', v_) or is_field(a, 'ip.dst', v_):
+                fam.setdefault(v_, []).append(n)
+    chk(sorted(fam) == ['V4', 'V6'] and sorted(fam['V4']) != sorted(fam['V6']), 'generate:families-distinct',
+        'address writes per family: %s (the two sequences must differ in width)' % {k_: sorted(v_) for k_, v_ in fam.items()}, '%s:%d' % (g.file, g.line))
     return out
 
 
